@@ -28,3 +28,7 @@ VARIANTS = [
     v("c16-twin-alloc-in-loop", Z, "        sums[:] = 0\n        counts[:] = 0\n", "        sums = np.zeros(num_zones, dtype=np.float64)\n        counts = np.zeros(num_zones, dtype=np.int64)\n", expect="silent"),
     v("c16-twin-numzones", Z, "for idx in range(result.shape[1]):", "for idx in range(num_zones):", expect="silent"),
 ]
+
+VARIANTS += [
+    v("c16-token", A, 'dask_name = f"{name}-{tokenize(xx.data, zones.data, dtype)}"', 'dask_name = f"{name}-{tokenize(xx.data, xx.nodata, zones.nodata, num_zones, dtype)}"', names="R-TOKEN", note="seeded C16a"),
+]
